@@ -451,6 +451,7 @@ func cmdRun(args []string) int {
 		wall = *maxWall
 	}
 	loadSites(*sitesF)
+	os.Setenv("SIMCHECK_NSITES", fmt.Sprint(len(sitesTable)))
 	exe, _ := os.Executable()
 	fmt.Printf("simcheck property=%s tier=%s VERIF_SEED=%d runs=%d workers=%d\n", *prop, *tier, seed, total, *workers)
 	br := runWorkers(exe, sc, *tier, seed, total, *workers, 6, *known, time.Now().Unix()+int64(wall))
